@@ -26,6 +26,18 @@ NODXIL = ["spv", "spvd", "hlsl", "msl", "glsl"]
 MODEL_FILES = ["State/Reset.v", "State/History.v", "State/Schedule.v", "State/MapOrder.v", "State/Tie.v",
                "State/GenObligations.v", "State/Instance.v"]
 STRESS_DIR = os.path.join(vcheck.VERIF, "state", "c12_stress")
+# (target, program) pairs whose output is known / was observed on this run to vary from call to call: every other monitor
+# presupposes determinism, so its alarms on such a pair are consequences and are reported under the same key
+UNSTABLE = set()
+
+
+def nondet(ctx, t, name, what, files=None):
+    """If (t, name) is an unstable pair report `what` under its nondeterminism key and return True."""
+    if (t, name) in UNSTABLE:
+        ctx.violation("%s (consequence of the non-deterministic %s output for %s)" % (what, t, name), files=files,
+                      key="nondeterministic:%s:%s" % (t, name))
+        return True
+    return False
 
 
 # ------------------------------------------------------------------ programs
@@ -166,6 +178,14 @@ def monitor_histories(ctx, tool, progs, n_hist, max_len, stats):
             seq.append(seq[-1] if seq[-1] >= 0 else 0)
         jobs.append({"id": h, "data": {"programs": [progs[i][1] for i in idx], "seq": seq, "debug": h % 2 == 1}})
         meta[h] = (idx, seq)
+    # systematic part: every program X as a possible poisoner: X, three fixed probe programs, X again
+    probes = [rng.below(len(progs)) for _ in range(3)]
+    for x in range(len(progs)):
+        idx = [x] + probes
+        seq = [0, 1, 2, 3, 0]
+        jobs.append({"id": n_hist + x, "data": {"programs": [progs[i][1] for i in idx], "seq": seq, "debug": x % 2 == 1}})
+        meta[n_hist + x] = (idx, seq)
+    n_hist = len(jobs)
     res = nagarun.parallel_batches(tool, "history", jobs, per_job_timeout=60.0, chunk=6)
     distinct = set()
     for h in range(n_hist):
@@ -199,6 +219,8 @@ def monitor_histories(ctx, tool, progs, n_hist, max_len, stats):
                     % (names[b["prog"]], b.get("version_reused", 0), b.get("version_fresh", 0), b.get("first_diff_word", -1), b.get("leaked_version", 0),
                        [names[p] if p >= 0 else "Reset" for p in seq[:b["step"] + 1]]),
                     files={"job.json": json.dumps(jobs[h]), "mode.txt": "history"}, key="spirv-reuse:options.Version-leak")
+                continue
+            if nondet(ctx, "spvd" if h % 2 == 1 else "spv", names[b["prog"]], "reused spirv.Backend: output differs from a fresh Backend"):
                 continue
             # unexplained: shrink the history to the shortest one that still differs unexplained at its last step
             upto = seq[:b["step"] + 1]
@@ -273,6 +295,8 @@ def monitor_perms(ctx, tool, progs, per_prog, all5_for, stats):
                            "mode.txt": "perm", "program.wgsl": j["src"], "diff.txt": "\n".join(b["paths"]) + "\n"},
                     key="module-mutated:%s" % ("dxil" if t == "dxil" else t))
             elif b["kind"] == "output-differs" and b.get("module_intact_before", True):
+                if nondet(ctx, t, name, "back end %s after %s on one module: output differs from the fresh-module output" % (t, order[:b["step"]])):
+                    continue
                 prefix = order[:b["step"] + 1]
 
                 def fails(cand, src=j["src"], t=t):
@@ -292,7 +316,9 @@ def monitor_perms(ctx, tool, progs, per_prog, all5_for, stats):
 
 def monitor_reruns(ctx, tool, progs, processes, repeat, stats):
     """(iii) the same compilations in `processes` fresh processes (fresh hash seeds), each repeating `repeat` times in process."""
-    jobs = [{"id": i, "src": s, "data": {"targets": TARGETS + ["warn"], "repeat": repeat}} for i, (n, s) in enumerate(progs)]
+    # the few stress shaders aim at order-dependent code paths whose effect shows only in some enumeration orders: more repetitions
+    jobs = [{"id": i, "src": s, "data": {"targets": TARGETS + ["warn"], "repeat": max(repeat, 12) if n.startswith("stress/") else repeat}}
+            for i, (n, s) in enumerate(progs)]
     runs = []
     for p in range(processes):
         # every worker of parallel_batches is a new OS process
@@ -313,6 +339,7 @@ def monitor_reruns(ctx, tool, progs, processes, repeat, stats):
             continue
         for r in rs:
             for t in r.get("unstable") or []:
+                UNSTABLE.add((t, name))
                 key = "nondeterministic:lower-warnings-order" if t == "warn" else "nondeterministic:%s:%s" % (t, name)
                 ctx.violation(("the warnings returned by wgsl.LowerWithWarnings for %s come in a different order from call to call (same process)" % name)
                               if t == "warn" else
@@ -338,6 +365,7 @@ def monitor_reruns(ctx, tool, progs, processes, repeat, stats):
             outs = {(r.get("outs") or {}).get(t) for r in rs}
             stats["rerun_units"] += 1
             if len(outs) > 1:
+                UNSTABLE.add((t, name))
                 key = "nondeterministic:lower-warnings-order" if t == "warn" else "nondeterministic:%s:%s" % (t, name)
                 ctx.violation("%s of %s differs between fresh processes (digests %s)" % (t, name, sorted(map(str, outs))),
                               files={"program.wgsl": src, "job.json": json.dumps({"id": 0, "src": src, "data": {"targets": [t], "repeat": 50}}),
@@ -419,6 +447,8 @@ def monitor_concurrent(ctx, racetool, progs, mutated_dxil, rounds, n, stats):
                 ctx.violation("shared module of %s: %s while dxil.Compile runs concurrently on it" % (pname, b["kind"]),
                               files={"job.json": json.dumps(job), "mode.txt": "concurrent"}, key="module-mutated:dxil")
                 continue
+            if b["kind"] != "module-mutated" and nondet(ctx, b.get("target"), pname, "concurrent compilation (%s): output differs from the same work run alone" % tag):
+                continue
             if b["kind"] == "module-mutated":
                 ctx.violation("a module shared by concurrently running back ends %s was altered (%s): %s" % (targets, pname, b.get("paths", [])[:4]),
                               files={"job.json": json.dumps({"id": 0, "data": dict(job["data"], programs=[srcs[b["prog"]]])}), "mode.txt": "concurrent",
@@ -483,6 +513,11 @@ def dedup_violations(ctx, per_class=4):
 
 def run(ctx):
     dedup_violations(ctx)
+    UNSTABLE.clear()
+    for k in ctx._known:
+        m = re.match(r"nondeterministic:(spv|spvd|hlsl|msl|glsl|dxil):(.+)$", k.get("match", ""))
+        if m and k.get("status") == "open":
+            UNSTABLE.add((m.group(1), m.group(2)))
     phase = {}
     t_ = [time.time()]
 
